@@ -107,23 +107,14 @@ Definition eval_symlinks (fs : fsmap) (s : bytes) : option bytes :=
        | None => None
        end.
 
-Fixpoint strip_trailing (comps : list seg) : list seg :=
-  match comps with
-  | [] => []
-  | c :: r => match strip_trailing r with
-              | [] => if beq c [] then [] else [c]
-              | r' => c :: r'
-              end
-  end.
-
 (* where a creating system call (mkdir / symlink / open O_CREAT) would put its new entry:
-   the parent is resolved following links, the last component must be a proper name *)
-Definition kcreate_at (fs : fsmap) (s : bytes) (allow_trailing_slash : bool) : option path :=
+   the parent is resolved following links, the last component must be a proper name.
+   (Both writers only pass cleaned paths, so trailing slashes never occur.) *)
+Definition kcreate_at (fs : fsmap) (s : bytes) : option path :=
   if negb (is_abs s) then None
   else if PATH_MAX1 <? blen s then None
   else
-    let comps0 := split_slash s in
-    let comps := if allow_trailing_slash then strip_trailing comps0 else comps0 in
+    let comps := split_slash s in
     let lastc := last comps [] in
     if beq lastc [] || beq lastc s_dot || beq lastc s_dotdot then None
     else if NAME_MAX <? blen lastc then None
@@ -138,7 +129,7 @@ Definition kcreate_at (fs : fsmap) (s : bytes) (allow_trailing_slash : bool) : o
 
 (* mkdir(2) *)
 Definition kmkdir (fs : fsmap) (s : bytes) : option fsmap :=
-  match kcreate_at fs s true with
+  match kcreate_at fs s with
   | Some p => match lookup fs p with None => Some (fs_set fs p NDir) | Some _ => None end
   | None => None
   end.
@@ -146,7 +137,7 @@ Definition kmkdir (fs : fsmap) (s : bytes) : option fsmap :=
 (* symlink(2) *)
 Definition ksymlink (fs : fsmap) (target s : bytes) : option fsmap :=
   if is_nil target || (PATH_MAX1 <? blen target) then None else
-  match kcreate_at fs s false with
+  match kcreate_at fs s with
   | Some p => match lookup fs p with None => Some (fs_set fs p (NLink target)) | Some _ => None end
   | None => None
   end.
@@ -155,7 +146,7 @@ Definition ksymlink (fs : fsmap) (target s : bytes) : option fsmap :=
    the kernel create the link's target; both writers only open paths whose last component was
    just seen not to exist, so that branch is unreachable and modelled as failure. *)
 Definition kwrite (fs : fsmap) (s : bytes) (cid : N) (size : Z) : option fsmap :=
-  match kcreate_at fs s false with
+  match kcreate_at fs s with
   | Some p =>
       match lookup fs p with
       | None => Some (fs_set fs p (NFile cid size))
@@ -487,6 +478,28 @@ Definition layer_run (cfg : lcfg) (fs : fsmap) (es : list entry) : fsmap * bool 
       let '((fs1, _), err) := layer_entries cfg (fs0, [([], false)]) es in (fs1, err)
   end.
 
+Fixpoint image_layers (max : Z) (marker : bytes) (fs : fsmap) (ls : list (bytes * list entry)) : fsmap * bool :=
+  match ls with
+  | [] => (fs, false)
+  | (d, es) :: r =>
+      let '(fs', err) := layer_run {| l_dir := d; l_max := max; l_marker := marker |} fs es in
+      if err then (fs', true) else image_layers max marker fs' r
+  end.
+
+(* Image.CleanUp: os.RemoveAll(ExtractDir) *)
+Definition cleanup (fs : fsmap) (e : path) : fsmap :=
+  filter (fun pn : path * node => negb (seg_prefix e (fst pn))) fs.
+
+(* FromV1Image's effect on disk: MkdirTemp (the fresh name is a parameter), the layers in
+   processing order, and handleImageError's CleanUp when a layer fails *)
+Definition image_run (extract : bytes) (max : Z) (marker : bytes) (fs : fsmap) (ls : list (bytes * list entry)) : fsmap * bool :=
+  match kmkdir fs extract with
+  | None => (fs, true)
+  | Some fs0 =>
+      let '(fs1, err) := image_layers max marker fs0 ls in
+      if err then (cleanup fs1 (csegs extract), true) else (fs1, false)
+  end.
+
 (* ------------------------------------------------------------------ specification side *)
 (* paths at which two states differ *)
 Definition changed_in (a b : fsmap) : list path :=
@@ -499,12 +512,14 @@ Definition changed_in (a b : fsmap) : list path :=
 Definition all_changes_inside (d : path) (a b : fsmap) : bool :=
   forallb (seg_prefix d) (changed_in a b).
 
+Definition no_dotdot (comps : list seg) : bool := forallb (fun c => negb (beq c s_dotdot)) comps.
+
 (* every link below d that resolves at all resolves to d or below *)
 Definition links_resolve_inside (d : path) (fs : fsmap) : bool :=
   forallb (fun (pn : path * node) =>
              match snd pn with
              | NLink _ =>
-                 if seg_prefix d (fst pn) then
+                 if seg_prefix d (fst pn) && no_dotdot (fst pn) then
                    match walk KERNEL_LINKS false fs true [] (fst pn) with
                    | Some q => seg_prefix d q
                    | None => true
@@ -513,10 +528,49 @@ Definition links_resolve_inside (d : path) (fs : fsmap) : bool :=
              | _ => true
              end) fs.
 
+(* every prefix of [pre ++ rest] beyond [pre] is a real directory (no link on the way) *)
+Fixpoint phys_dir (fs : fsmap) (pre : path) (rest : path) : bool :=
+  match rest with
+  | [] => true
+  | c :: r => match lookup fs (pre ++ [c]) with
+              | Some NDir => phys_dir fs (pre ++ [c]) r
+              | _ => false
+              end
+  end.
+
+(* links that cannot lead out of d: no ".." component, absolute ones re-rooted below d *)
+Definition link_target_safe (d : path) (t : bytes) : bool :=
+  no_dotdot (split_slash t) && (negb (is_abs t) || seg_prefix ([] :: d) (split_slash t)).
+
+Definition links_safe (d : path) (fs : fsmap) : bool :=
+  forallb (fun pn : path * node =>
+             match snd pn with
+             | NLink t => negb (seg_prefix d (fst pn)) || link_target_safe d t
+             | _ => true
+             end) fs.
+
+(* what TargetOutsideRoot is meant to decide: the target, taken lexically from the link's directory
+   (from the root for absolute targets), never climbs above the root *)
+Definition lex_comps (pth target : bytes) : list seg :=
+  if is_abs target then split_slash target else split_slash (dir_of pth) ++ split_slash target.
+
+Definition lexically_inside (pth target : bytes) : bool :=
+  no_dotdot (clean_fold false [] (lex_comps pth target)).
+
+(* hypotheses of the image-load theorems, as booleans: ExtractDir is fresh (os.MkdirTemp) and every
+   layer directory is ExtractDir/<one proper segment> *)
+Definition nothing_at_or_below (fs : fsmap) (e : path) : bool :=
+  forallb (fun pn : path * node => negb (seg_prefix e (fst pn))) fs.
+
+Definition layer_dir_okb (e : path) (d : bytes) : bool :=
+  let nm := last (csegs d) [] in
+  beq d (render true (e ++ [nm])) && properb nm && negb (existsb (N.eqb SL) nm).
+
+Definition layer_dirs_okb (e : path) (ls : list (bytes * list entry)) : bool :=
+  forallb (fun l : bytes * list entry => layer_dir_okb e (fst l)) ls.
+
 (* domain D of the positive unpack theorem: every cleaned name stays below the target lexically and
    no link target contains a ".." component *)
-Definition no_dotdot (comps : list seg) : bool := forallb (fun c => negb (beq c s_dotdot)) comps.
-
 Definition entry_in_D (e : entry) : bool :=
   no_dotdot (csegs (e_name e)) &&
   match e_type e with
